@@ -171,7 +171,9 @@ CHECKS = {
                 'cell with its line number, other tokens untouched, verbatim re-export. Known finding K7 (valid prefix + garbage '
                 'accepted and shortened). Document level, for every text that imports: the error list is exactly the list of the ErrorToken nodes '
                 '(each malformed cell once, nothing else), each carries its line number, the recogniser model never builds an '
-                'ErrorToken itself, ErrorTokens are exported verbatim (C12_errors_reported_once_with_line).',
+                'ErrorToken itself, ErrorTokens are exported verbatim (C12_errors_reported_once_with_line). The file line reader cuts the same cells: its '
+                'arguments are regenerated and compared (C12_readers_as_modelled), load = loads on texts without the splitlines-only '
+                'separators (C12_file_import_is_string_import); every other damaged document is also loaded from a file.',
         'note': _COMMON_NOTE + 'The recogniser is universally quantified in the theorems; cells outside CKL are outside the document-level model (their share is printed in the evidence).',
         'technique': 'Coq proof (state machine, parametric recogniser, regenerated listener flag) + history and damaged-document correspondence + monitors',
     },
